@@ -62,20 +62,165 @@ fn over_cap(size: usize) -> ! {
     }
 }
 
+// ---------------------------------------------------------------------------------------------
+// Guard mode (native lanes only: env MV_GUARD=1, decided at the first allocation and constant for
+// the life of the process). Every block gets a 16-byte canary tail; fresh memory is filled with a
+// poison byte instead of whatever the allocator had there; freed memory is overwritten.
+//  * a write past the end of a block (up to 16 bytes) damages the canary: detected when the block
+//    is freed or resized -> the worker exits with code 87 (the supervisor attributes it to the case)
+//  * a result that depends on uninitialised memory changes when the poison byte changes
+//    (`Case::lib_stable` runs the call under two poison values and compares)
+// The sanitizer lanes (asan, memcheck) and Miri run without it: their own red zones and
+// definedness tracking are byte-precise, and a canary tail / poison fill would hide things from them.
+const TAIL: usize = 16;
+const CANARY: u8 = 0xFD;
+static GUARD_STATE: AtomicUsize = AtomicUsize::new(0); // 0 unknown, 1 on, 2 off
+static POISON: AtomicUsize = AtomicUsize::new(0xA5);
+
+#[cfg(not(miri))]
+extern "C" {
+    fn getenv(name: *const u8) -> *const u8;
+}
+
+#[inline]
+fn guard_on() -> bool {
+    #[cfg(miri)]
+    {
+        false
+    }
+    #[cfg(not(miri))]
+    {
+        match GUARD_STATE.load(Ordering::Relaxed) {
+            1 => true,
+            2 => false,
+            _ => {
+                let on = unsafe { !getenv(b"MV_GUARD\0".as_ptr()).is_null() };
+                GUARD_STATE.store(if on { 1 } else { 2 }, Ordering::Relaxed);
+                on
+            }
+        }
+    }
+}
+
+/// Is guard mode active in this process?
+pub fn guard_active() -> bool {
+    guard_on()
+}
+
+/// Byte used to fill fresh allocations in guard mode (returns the previous value).
+pub fn set_poison(b: u8) -> u8 {
+    POISON.swap(b as usize, Ordering::Relaxed) as u8
+}
+
+#[cold]
+fn canary_hit(size: usize) -> ! {
+    let mut buf = [0u8; 64];
+    let prefix = b"MV-HEAP-CANARY ";
+    buf[..prefix.len()].copy_from_slice(prefix);
+    let mut n = prefix.len();
+    let mut digits = [0u8; 24];
+    let mut d = 0;
+    let mut v = size;
+    if v == 0 {
+        digits[0] = b'0';
+        d = 1;
+    }
+    while v > 0 {
+        digits[d] = b'0' + (v % 10) as u8;
+        v /= 10;
+        d += 1;
+    }
+    for i in (0..d).rev() {
+        buf[n] = digits[i];
+        n += 1;
+    }
+    buf[n] = b'\n';
+    n += 1;
+    #[cfg(not(miri))]
+    unsafe {
+        write(2, buf.as_ptr(), n);
+        _exit(87);
+    }
+    #[cfg(miri)]
+    {
+        let _ = n;
+        std::process::exit(87);
+    }
+}
+
+/// Fill fresh memory with the poison byte; blocks above 1 MiB only at both ends (a library that
+/// reserves gigabytes on the strength of a header field must not make the monitor commit them).
+#[inline]
+unsafe fn poison_fill(p: *mut u8, size: usize, byte: u8) {
+    const BIG: usize = 1 << 20;
+    const EDGE: usize = 64 << 10;
+    if size <= BIG {
+        std::ptr::write_bytes(p, byte, size);
+    } else {
+        std::ptr::write_bytes(p, byte, EDGE);
+        std::ptr::write_bytes(p.add(size - EDGE), byte, EDGE);
+    }
+}
+
+#[inline]
+unsafe fn with_tail(l: Layout) -> Layout {
+    Layout::from_size_align_unchecked(l.size() + TAIL, l.align())
+}
+
+#[inline]
+unsafe fn check_canary(p: *mut u8, size: usize) {
+    for i in 0..TAIL {
+        if *p.add(size + i) != CANARY {
+            canary_hit(size);
+        }
+    }
+}
+
 unsafe impl GlobalAlloc for MonAlloc {
     unsafe fn alloc(&self, l: Layout) -> *mut u8 {
         note(l.size());
+        if guard_on() {
+            let p = System.alloc(with_tail(l));
+            if !p.is_null() {
+                poison_fill(p, l.size(), POISON.load(Ordering::Relaxed) as u8);
+                std::ptr::write_bytes(p.add(l.size()), CANARY, TAIL);
+            }
+            return p;
+        }
         System.alloc(l)
     }
     unsafe fn dealloc(&self, p: *mut u8, l: Layout) {
+        if guard_on() {
+            check_canary(p, l.size());
+            poison_fill(p, l.size(), 0x5A);
+            return System.dealloc(p, with_tail(l));
+        }
         System.dealloc(p, l)
     }
     unsafe fn alloc_zeroed(&self, l: Layout) -> *mut u8 {
         note(l.size());
+        if guard_on() {
+            let p = System.alloc_zeroed(with_tail(l));
+            if !p.is_null() {
+                std::ptr::write_bytes(p.add(l.size()), CANARY, TAIL);
+            }
+            return p;
+        }
         System.alloc_zeroed(l)
     }
     unsafe fn realloc(&self, p: *mut u8, l: Layout, new_size: usize) -> *mut u8 {
         note(new_size);
+        if guard_on() {
+            check_canary(p, l.size());
+            let np = System.realloc(p, with_tail(l), new_size + TAIL);
+            if !np.is_null() {
+                if new_size > l.size() {
+                    poison_fill(np.add(l.size()), new_size - l.size(), POISON.load(Ordering::Relaxed) as u8);
+                }
+                std::ptr::write_bytes(np.add(new_size), CANARY, TAIL);
+            }
+            return np;
+        }
         System.realloc(p, l, new_size)
     }
 }
